@@ -80,7 +80,7 @@ Theorem nearest_asis_correct : forall x L, 1 <= L -> 0 < snd x -> Z.gcd (fst x) 
      ((sg = Positive /\ is_succ x L r) \/ (sg = Negative /\ is_pred x L r))).
 Proof.
   intros [xn xd] L HL Hxd Hg. cbn [fst snd] in *. unfold nearest_asis. cbn [fst snd].
-  destruct (Z.eqb_spec L 0); [lia|]. split.
+  destruct (Z.eqb_spec L 0) as [|_]; [lia|]. split.
   - intros Hfit. destruct (Z.leb_spec xd L); [reflexivity|lia].
   - intros Hcut. destruct (Z.leb_spec xd L); [lia|].
     pose proof (split_props xn xd Hxd Hg) as Hs. cbv zeta in Hs.
@@ -98,12 +98,12 @@ Proof.
     assert (Hgr : Z.gcd rn rd = 1) by (apply (det_coprime _ _ ld (- ln)); lia).
     destruct (freduce_mul (fadd (ln, ld) (rn, rd))) as (g & Hgp & Hn & Hd & _ & Hmd).
     { unfold fadd. cbn [fst snd]. nia. }
-    unfold fadd in Hn, Hd. cbn [fst snd] in Hn, Hd.
-    set (mid0 := freduce (fadd (ln, ld) (rn, rd))) in *. unfold flt. cbn [fst snd].
+    set (mid0 := freduce (fadd (ln, ld) (rn, rd))) in *.
+    unfold fadd in Hn, Hd. cbn [fst snd] in Hn, Hd. unfold flt. cbn [fst snd].
     destruct (Z.ltb_spec (fst mid0 * xd) (fa * (2 * snd mid0))) as [Hm|Hm].
     + (* right neighbour *)
       assert (Hmid : (ln * rd + rn * ld) * xd < 2 * fa * (ld * rd)).
-      { assert (g * (fst mid0 * xd) < g * (fa * (2 * snd mid0))) by nia. nia. }
+      { rewrite Hn, Hd. assert (g * (fst mid0 * xd) < g * (fa * (2 * snd mid0))) by (apply Z.mul_lt_mono_pos_l; lia). lia. }
       exists (int_add t (rn, rd)), Positive. split; [reflexivity|].
       assert (Hsucc : is_succ (xn, xd) L (int_add t (rn, rd))).
       { apply (shift_succ L xn xd t fa xd (fa, xd) (ln, ld) (rn, rd)); cbn [fst snd]; try assumption; try lia. }
@@ -113,7 +113,7 @@ Proof.
       rewrite int_add_coprime by exact Hgr. rewrite (closer_shift xn xd t fa n m rn rd Hxe).
       apply (choose_right L fa xd (ln, ld) (rn, rd) (n - t * m) m); cbn [fst snd]; assumption.
     + assert (Hmid : 2 * fa * (ld * rd) <= (ln * rd + rn * ld) * xd).
-      { assert (g * (fa * (2 * snd mid0)) <= g * (fst mid0 * xd)) by nia. nia. }
+      { rewrite Hn, Hd. assert (g * (fa * (2 * snd mid0)) <= g * (fst mid0 * xd)) by (apply Z.mul_le_mono_nonneg_l; lia). lia. }
       exists (int_add t (ln, ld)), Negative. split; [reflexivity|].
       assert (Hpred : is_pred (xn, xd) L (int_add t (ln, ld))).
       { apply (shift_pred L xn xd t fa xd (fa, xd) (ln, ld) (rn, rd)); cbn [fst snd]; try assumption; try lia. }
@@ -131,7 +131,7 @@ Proof. reflexivity. Qed.
 Lemma simpler_den_le : forall r s, simpler r s = true -> snd r <= snd s.
 Proof.
   intros [a b] [c d]. unfold simpler. cbn [fst snd].
-  destruct (Z.compare_spec b d); try lia. discriminate.
+  destruct (Z.compare_spec b d); intros H0; [lia|lia|discriminate].
 Qed.
 
 (** no fraction of denominator <= L strictly between lo and hi *)
@@ -155,23 +155,23 @@ Qed.
 Theorem next_up_check_sound : forall x L r, 0 < snd x -> next_up_check x L r = Ok true -> is_succ x L r.
 Proof.
   intros x L r Hx H. unfold next_up_check, canonical, flt in H.
-  destruct (Z.ltb_spec 0 (snd r)); cbn [andb] in H; [|discriminate].
-  destruct (Z.eqb_spec (Z.gcd (fst r) (snd r)) 1); cbn [andb] in H; [|discriminate].
-  destruct (Z.leb_spec (snd r) L); cbn [andb] in H; [|discriminate].
-  destruct (Z.ltb_spec (fst x * snd r) (fst r * snd x)); [|discriminate].
-  unfold is_succ, in_FL. repeat split; try lia; try assumption.
-  intros s Hs H1 H2. exact (den_gt_sound x r L Hx ltac:(lia) ltac:(assumption) H s Hs H1 H2).
+  destruct (Z.ltb_spec 0 (snd r)) as [Hrd|]; cbn [andb] in H; [|discriminate].
+  destruct (Z.eqb_spec (Z.gcd (fst r) (snd r)) 1) as [Hgr|]; cbn [andb] in H; [|discriminate].
+  destruct (Z.leb_spec (snd r) L) as [HrL|]; cbn [andb] in H; [|discriminate].
+  destruct (Z.ltb_spec (fst x * snd r) (fst r * snd x)) as [Hxr|]; [|discriminate].
+  unfold is_succ, in_FL. split; [lia|]. split; [exact Hgr|]. split; [exact Hxr|].
+  intros s Hs H1 H2. exact (den_gt_sound x r L Hx Hrd Hxr H s Hs H1 H2).
 Qed.
 
 Theorem next_down_check_sound : forall x L r, 0 < snd x -> next_down_check x L r = Ok true -> is_pred x L r.
 Proof.
   intros x L r Hx H. unfold next_down_check, canonical, flt in H.
-  destruct (Z.ltb_spec 0 (snd r)); cbn [andb] in H; [|discriminate].
-  destruct (Z.eqb_spec (Z.gcd (fst r) (snd r)) 1); cbn [andb] in H; [|discriminate].
-  destruct (Z.leb_spec (snd r) L); cbn [andb] in H; [|discriminate].
-  destruct (Z.ltb_spec (fst r * snd x) (fst x * snd r)); [|discriminate].
-  unfold is_pred, in_FL. repeat split; try lia; try assumption.
-  intros s Hs H1 H2. exact (den_gt_sound r x L ltac:(lia) Hx ltac:(assumption) H s Hs H2 H1).
+  destruct (Z.ltb_spec 0 (snd r)) as [Hrd|]; cbn [andb] in H; [|discriminate].
+  destruct (Z.eqb_spec (Z.gcd (fst r) (snd r)) 1) as [Hgr|]; cbn [andb] in H; [|discriminate].
+  destruct (Z.leb_spec (snd r) L) as [HrL|]; cbn [andb] in H; [|discriminate].
+  destruct (Z.ltb_spec (fst r * snd x) (fst x * snd r)) as [Hxr|]; [|discriminate].
+  unfold is_pred, in_FL. split; [lia|]. split; [exact Hgr|]. split; [exact Hxr|].
+  intros s Hs H1 H2. exact (den_gt_sound r x L Hrd Hx Hxr H s Hs H2 H1).
 Qed.
 
 (** a fraction strictly closer to x than r lies strictly between r and its mirror image 2x - r *)
@@ -204,25 +204,37 @@ Theorem nearest_check_sound : forall x L r sg, 0 < snd x -> nearest_check x L r 
   ((sg = Positive /\ fval_lt x r) \/ (sg = Negative /\ fval_lt r x)).
 Proof.
   intros [xn xd] L [rn rd] sg Hx H. cbn [snd] in Hx. unfold nearest_check, canonical, flt, fsub in H. cbn [fst snd] in H.
-  destruct (Z.ltb_spec 0 rd); cbn [andb] in H; [|discriminate].
-  destruct (Z.eqb_spec (Z.gcd rn rd) 1); cbn [andb] in H; [|discriminate].
-  destruct (Z.leb_spec rd L); cbn [andb] in H; [|discriminate].
+  destruct (Z.ltb_spec 0 rd) as [Hrd|]; cbn [andb] in H; [|discriminate].
+  destruct (Z.eqb_spec (Z.gcd rn rd) 1) as [Hgr|]; cbn [andb] in H; [|discriminate].
+  destruct (Z.leb_spec rd L) as [HrL|]; cbn [andb] in H; [|discriminate].
+  assert (Hmd : 0 < xd * rd) by nia.
   destruct (Z.ltb_spec (xn * rd) (rn * xd)) as [Hup|Hnup].
   - destruct sg; [|discriminate]. split; [|left; split; [reflexivity|unfold fval_lt; cbn [fst snd]; lia]].
-    unfold is_nearest, in_FL. cbn [fst snd]. repeat split; try lia; try assumption.
+    unfold is_nearest, in_FL. cbn [fst snd]. split; [lia|]. split; [exact Hgr|].
     intros [sn sd] Hs Hc. cbn [fst snd] in Hs.
-    destruct (closer_between_up xn xd sn sd rn rd) as (H1 & H2); try lia; try assumption.
-    apply (den_gt_sound (2 * xn * rd - rn * xd, xd * rd) (rn, rd) L) with (s := (sn, sd)); cbn [fst snd]; try nia; try assumption.
-    + unfold fval_lt. cbn [fst snd]. nia.
-    + unfold fval_lt. cbn [fst snd]. lia.
-    + unfold fval_lt. cbn [fst snd]. lia.
+    destruct (closer_between_up xn xd sn sd rn rd Hx ltac:(lia) Hrd Hup Hc) as (H1 & H2).
+    apply (den_gt_sound (2 * xn * rd - rn * xd, xd * rd) (rn, rd) L Hmd Hrd) with (s := (sn, sd));
+      [ | exact H | exact Hs | | ]; unfold fval_lt; cbn [fst snd]; [|lia|lia].
+    assert (xn * rd * rd < rn * xd * rd) by (apply Z.mul_lt_mono_pos_r; lia). lia.
   - destruct (Z.ltb_spec (rn * xd) (xn * rd)) as [Hdown|]; [|discriminate].
     destruct sg; [discriminate|]. split; [|right; split; [reflexivity|unfold fval_lt; cbn [fst snd]; lia]].
-    unfold is_nearest, in_FL. cbn [fst snd]. repeat split; try lia; try assumption.
+    unfold is_nearest, in_FL. cbn [fst snd]. split; [lia|]. split; [exact Hgr|].
     intros [sn sd] Hs Hc. cbn [fst snd] in Hs.
-    destruct (closer_between_down xn xd sn sd rn rd) as (H1 & H2); try lia; try assumption.
-    apply (den_gt_sound (rn, rd) (2 * xn * rd - rn * xd, xd * rd) L) with (s := (sn, sd)); cbn [fst snd]; try nia; try assumption.
-    + unfold fval_lt. cbn [fst snd]. nia.
-    + unfold fval_lt. cbn [fst snd]. lia.
-    + unfold fval_lt. cbn [fst snd]. lia.
+    destruct (closer_between_down xn xd sn sd rn rd Hx ltac:(lia) Hrd Hdown Hc) as (H1 & H2).
+    apply (den_gt_sound (rn, rd) (2 * xn * rd - rn * xd, xd * rd) L Hrd Hmd) with (s := (sn, sd));
+      [ | exact H | exact Hs | | ]; unfold fval_lt; cbn [fst snd]; [|lia|lia].
+    assert (rn * xd * rd < xn * rd * rd) by (apply Z.mul_lt_mono_pos_r; lia). lia.
 Qed.
+
+(** non-vacuity: pi ~ 3.141592653 at limit 10 (the doc examples), an integer at limit 1 *)
+Example farey_examples :
+  next_up_asis (3141592653, 1000000000) 10 = Ok (22, 7) /\
+  next_down_asis (3141592653, 1000000000) 10 = Ok (25, 8) /\
+  nearest_asis (3141592653, 1000000000) 10 = Ok (AInexact (22, 7) Positive) /\
+  nearest_asis (22, 7) 10 = Ok (AExact (22, 7)) /\
+  next_up_asis (3, 1) 1 = Ok (4, 1) /\ next_down_asis (-1, 2) 2 = Ok (-1, 1) /\
+  next_up_check (3141592653, 1000000000) 10 (22, 7) = Ok true /\
+  next_down_check (3141592653, 1000000000) 10 (25, 8) = Ok true /\
+  nearest_check (3141592653, 1000000000) 10 (22, 7) Positive = Ok true /\
+  nearest_check (3141592653, 1000000000) 10 (25, 8) Negative = Ok false.
+Proof. repeat split; vm_compute; reflexivity. Qed.
